@@ -139,7 +139,7 @@ def tree_fields(env):
 
 
 def clip(text, env):
-    return text if not env.desc or len(text) <= 900 else text[:900] + " ...[clipped]"
+    return text if not env.desc or len(text) <= 500 else text[:500] + " ...[clipped]"
 
 
 def pt_str(pt):
